@@ -66,6 +66,7 @@ SPEC = {
     "prop": "prun",
     "gen_extra": ["opts"],
     "mod": "ParolModel.Props.C20",
+    "more_mods": ["ParolModel.Props.C20b"],
     "files": FILES,
     "nontrivial": nontrivial,
     "extra": extra,
@@ -81,10 +82,10 @@ SPEC = {
 
 CLAIM = {
     "category": "proof",
-    "text": "LL theorems for all tables and inputs: ll_trim_recovery_irrelevant (option records that agree on the depth limit give the same result, action trace, comment trace and step count — the tree builder is erased by llLoop_core), ll_depth_limit (a run with limit m either coincides with the unlimited run or ends with MaxParsingDepthExceeded for a depth > m), ll_depth_unreached_irrelevant. Both parser models are tied to the real LLKParser / LRParser by exact differential runs under all 16 option combinations per input, and the real replies are additionally checked group-wise: equal verdict and action trace across combinations, depth errors only above the limit, no panic.",
+    "text": "LR theorems (Props/C20b) for all tables and inputs: lr_trim_recovery_irrelevant (option records agreeing on the depth limit give the same result, actions, comments and step count), lr_depth_limit, lr_depth_unreached_irrelevant. LL theorems for all tables and inputs: ll_trim_recovery_irrelevant (option records that agree on the depth limit give the same result, action trace, comment trace and step count — the tree builder is erased by llLoop_core), ll_depth_limit (a run with limit m either coincides with the unlimited run or ends with MaxParsingDepthExceeded for a depth > m), ll_depth_unreached_irrelevant. Both parser models are tied to the real LLKParser / LRParser by exact differential runs under all 16 option combinations per input, and the real replies are additionally checked group-wise: equal verdict and action trace across combinations, depth errors only above the limit, no panic.",
     "design_ref": "DESIGN.md §6 C20",
-    "note": "Trusted: Lean kernel; faithfulness of the models as observed; harness and orchestrator. Not proved: the LR analogues (LRTrimIrrelevant); recovery internals are not modelled (verdict-level comparison only).",
-    "technique": "Lean 4 proof (LL) over hand-written model + differential correspondence check over all option combinations",
+    "note": "Trusted: Lean kernel; faithfulness of the models as observed; harness and orchestrator.; recovery internals are not modelled (verdict-level comparison only).",
+    "technique": "Lean 4 proof (LL and LR) over hand-written model + differential correspondence check over all option combinations",
 }
 
 
